@@ -346,6 +346,10 @@ fn process_key(ctx: &Ctx, bytes: &[u8], armored: bool) {
         let _ = p.verify_bindings();
         let _ = p.to_bytes();
         let _ = k.fingerprint();
+        // accessors on the (still locked) secret parameters
+        for sp in std::iter::once(k.primary_key.secret_params()).chain(k.secret_subkeys.iter().map(|s| s.key.secret_params())) {
+            if let pgp::types::SecretParams::Encrypted(e) = sp { let _ = e.checksum(); let _ = e.data().len(); let _ = e.string_to_key_params(); }
+        }
         for pass in [&pw, &Password::empty()] {
             let _ = k.primary_key.unlock(pass, |_, _| Ok(()));
             let _ = DetachedSignature::sign_binary_data(rng(1), &k.primary_key, pass, k.primary_key.hash_alg(), &b"x"[..]);
